@@ -76,9 +76,17 @@ def gen_family(seed, fam):
 
     templates = []
     ntemp = r.randrange(2, 8)
+    # theme: a tenth of the families exercise the awslambda() helper with several entry points
+    p_lambda = 0.5 if r.random() < 0.1 else 0.08
+    if p_lambda > 0.1:
+        for n in ('api/a28_global_rename.py', 'api/a42_dunder_entry.py', 'api/a02_uses_helper.py'):
+            if n in byname and n not in chosen and r.random() < 0.7:
+                chosen.append(n)
+                sources.append(byname[n])
+                names.append(n)
     for ti in range(ntemp):
         c = {}
-        if r.random() < 0.08:
+        if r.random() < p_lambda:
             c['api'] = 'awslambda'
             c['src'] = r.randrange(len(sources))
             e = r.choice([None, 'omit', 'handler', 'helper', 'public_function'])
